@@ -95,6 +95,13 @@ Theorem C17_oracle_rotate : forall m init n s,
 Proof. exact oracle_rotate_model. Qed.
 Print Assumptions C17_oracle_rotate.
 
+(* a late caller of rotate_log (the log is already at term count n+1, the new term may already hold data) changes nothing *)
+Theorem C17_oracle_rotate_late : forall m init n s,
+  in_i32 init = true -> 0 <= n < two31 - 2 -> meta_consistent init (n + 1) s ->
+  holds_rotate_late s (rotate_log m s n (wrap32 (init + n))) = true.
+Proof. exact oracle_rotate_late_model. Qed.
+Print Assumptions C17_oracle_rotate_late.
+
 (* Publication::position(): the term id and the offset are cut out of the raw tail counter; the offset is clamped to
    the term length, so a tail that has overshot the term (tripped append, rotation pending, or the last term) never
    yields a position past the term end / the end of the position space. *)
